@@ -174,6 +174,148 @@ def check_case(prim, fall, order, close_at):
     return out, v
 
 
+# -- the SDK's own fallback fetcher: PVPowerFormula over a PV meter and two inverters ------
+
+
+def run_generated(prim, inv_b, order, close_at):
+    """grid(1) - meter(2) - PV meter(3) - {PV inverters 4, 5}.  The generated PV formula is `#3` with the
+    fallback formula `#4 + #5` (a real FallbackFormulaMetricFetcher, started lazily).  prim: per-timestamp
+    'v' / None for the PV meter; inv_b: per-timestamp 'v' / None for inverter 5 (inverter 4 is always valid)."""
+    from frequenz.client.microgrid import Component, ComponentCategory, ComponentMetricId, Connection, InverterType
+    from frequenz.quantities import Power
+
+    from frequenz.sdk._internal._channels import ChannelRegistry
+    from frequenz.sdk.microgrid._data_sourcing import ComponentMetricRequest
+    from frequenz.sdk.timeseries.formula_engine._formula_generators import PVPowerFormula
+    from frequenz.sdk.timeseries.formula_engine._formula_generators._formula_generator import FormulaGeneratorConfig
+
+    from .. import fakes
+
+    comps = {Component(1, ComponentCategory.GRID), Component(2, ComponentCategory.METER), Component(3, ComponentCategory.METER),
+             Component(4, ComponentCategory.INVERTER, InverterType.SOLAR), Component(5, ComponentCategory.INVERTER, InverterType.SOLAR)}
+    conns = {Connection(1, 2), Connection(2, 3), Connection(3, 4), Connection(3, 5)}
+    L = len(prim)
+    out = []
+    with virtual_loop() as loop, fakes.fake_microgrid(comps, conns):
+        reg = ChannelRegistry(name="verif")
+        subs = Broadcast(name="subscriptions")
+        engine = PVPowerFormula("verif-ns", reg, subs.new_sender(), FormulaGeneratorConfig(allow_fallback=True)).generate()
+        rx = engine.new_receiver()
+        loop.settle()
+        text = str(engine)
+
+        def chan(ns, cid):
+            name = ComponentMetricRequest(ns, cid, ComponentMetricId.ACTIVE_POWER, None).get_channel_name()
+            return reg.get_or_create(Sample[Quantity], name)
+
+        # the fallback formula lives in its own namespace, known only once it is generated: find the channels by name
+        def senders_for(cid):
+            return [reg.get_or_create(Sample[Quantity], key).new_sender() for key in list(reg._channels) if f"component_id={cid}," in key]
+
+        stalled = False
+        try:
+            for t in range(L):
+                evs = []
+                if close_at is not None and t == close_at:
+                    evs.append(("close",))
+                elif close_at is None or t < close_at:
+                    evs.append(("p", prim[t]))
+                evs.append(("f",))
+                if order == "fp":
+                    evs.reverse()
+                for e in evs:
+                    if e[0] == "close":
+                        for key in list(reg._channels):
+                            if "component_id=3," in key:
+                                loop.create_task(reg.get_or_create(Sample[Quantity], key).close())
+                    elif e[0] == "p":
+                        for sdr in senders_for(3):
+                            F.push(sdr, S(t, 1.0 + t if e[1] == "v" else None))
+                    else:
+                        for sdr in senders_for(4):
+                            F.push(sdr, S(t, 40.0 + t))
+                        for sdr in senders_for(5):
+                            F.push(sdr, S(t, 60.0 + t if inv_b[t] == "v" else None))
+                    loop.settle()
+                while len(rx):
+                    s_ = rx.consume()
+                    out.append((int((s_.timestamp - F.T0).total_seconds()), None if s_.value is None else s_.value.base_value))
+        except Stall:
+            stalled = True
+    return out, text, stalled
+
+
+def oracle_generated(prim, inv_b, order, close_at, out):
+    L = len(prim)
+    v = []
+
+    def prim_valid(t):
+        return (close_at is None or t < close_at) and prim[t] == "v"
+
+    t0 = next((t for t in range(L) if not prim_valid(t)), None)
+    got = {}
+    for k, val in out:
+        if k in got:
+            # a timestamp of the start-up window may be emitted a second time with the value the fallback
+            # delivers late for it (first None, then the true value): the property allows the delay
+            if not (t0 is not None and k <= t0 + 1 and got[k] is None):
+                return [("one_output_per_timestamp_in_order", {"duplicate_timestamp": k, "outputs": out})]
+        got[k] = val
+    ks = [k for k, _ in out]
+    if any(b < a for a, b in zip(ks, ks[1:])):
+        return [("one_output_per_timestamp_in_order", {"outputs": out})]
+    for t in range(L):
+        if prim_valid(t):
+            exp = 1.0 + t
+        else:
+            # fallback formula #4 + #5; inverter streams are configured with nones_are_zeros
+            exp = 40.0 + t + (60.0 + t if inv_b[t] == "v" else 0.0)
+        # start-up: the fallback engine is generated while t0 is processed; it needs the samples of a
+        # following timestamp to produce its first value
+        in_startup = t0 is not None and not prim_valid(t) and t <= t0 + 1
+        if t not in got:
+            if in_startup:
+                continue
+            v.append(("generated_formula_output_equals_primary_else_fallback", {"timestamp": t, "missing_output": True, "expected": exp, "outputs": out}))
+            break
+        if F.close(got[t], exp) or (in_startup and got[t] is None):
+            continue
+        v.append(("generated_formula_output_equals_primary_else_fallback", {"timestamp": t, "got": got[t], "expected": exp, "outputs": out}))
+        break
+    return v
+
+
+def gen_shard(args) -> Acc:
+    tier, L = args
+    acc = Acc()
+    for prim in itertools.product(["v", None], repeat=L):
+        for inv_b in ((["v"] * L), (["v", None] * L)[:L]):
+            for order in ("pf", "fp"):
+                for close_at in [None] + list(range(1, L)):
+                    out, text, stalled = run_generated(list(prim), inv_b, order, close_at)
+                    viol = oracle_generated(list(prim), inv_b, order, close_at, out)
+                    if stalled:
+                        viol.append(("execution_terminates", {}))
+                    acc.evaluations += 1
+                    acc.traces += 1
+                    acc.transitions += 2 * L
+                    acc.clauses["generated_formula_output_equals_primary_else_fallback"] += 1
+                    if any(x is None for x in prim) or close_at is not None:
+                        acc.nontrivial += 1
+                    acc.state(repr(("gen", prim, tuple(inv_b), order, close_at)))
+                    acc.outcome(f"generated outputs={len(out)}")
+                    if acc.evaluations % 300 == 1:
+                        acc.sample({"driver": "generated", "formula": text, "primary": list(prim), "order": order, "primary_closed_at": close_at, "outputs": out})
+                    for clause, detail in viol:
+                        acc.violation(Violation(clause, {"driver": "generated", "primary": list(prim), "inverter_b": inv_b, "order": order,
+                                                          "close_at": close_at}, detail, classes(prim, None, order, close_at)))
+    return acc
+
+
+def _dispatch(args):
+    return gen_shard(args[1:]) if args[0] == "gen" else shard(args)
+
+
 def classes(prim, fall, order, close_at):
     return ("primary-stream-closed",) if close_at is not None else ()
 
@@ -208,13 +350,14 @@ def shard(args) -> Acc:
 
 def run(tier: str, seed: int, workers: int):
     L = 5 if tier == "quick" else 6
-    shards = [(tier, L, first) for first in ["v", None, "nan"]]
-    # split further for parallelism
-    acc = pmap_acc(shard, shards, workers)
+    shards = [(tier, L, first) for first in ["v", None, "nan"]] + [("gen", tier, 5 if tier == "quick" else 6)]
+    acc = pmap_acc(_dispatch, shards, workers)
     meta = {
         "rule": "formula p + o, p with a lazily started fallback; L = 5 (quick) / 6 timestamps; primary per timestamp valid / None / NaN "
         "(all 3^L sequences), fallback per timestamp valid / None (all 2^L), fallback sample sent before or after the primary's, "
-        "primary stream closed at every position; non-trivial = some primary sample invalid or the stream closed",
+        "primary stream closed at every position; non-trivial = some primary sample invalid or the stream closed; plus the generated "
+        "PV formula of a PV meter with two inverters (real FallbackFormulaMetricFetcher and registry): all 2^L meter sequences x "
+        "inverter-missing pattern x order x close position",
         "assumptions": [
             "start-up delay made precise: the fallback is started at the first invalid primary timestamp t0; the output for t0, for "
             "the round in which a close is noticed, and for timestamps before the first sample the fallback stream delivers after "
@@ -228,5 +371,8 @@ def run(tier: str, seed: int, workers: int):
 
 
 def replay(case: dict):
+    if case.get("driver") == "generated":
+        out, _, _ = run_generated(case["primary"], case["inverter_b"], case["order"], case["close_at"])
+        return oracle_generated(case["primary"], case["inverter_b"], case["order"], case["close_at"], out)
     _, v = check_case(case["primary"], case["fallback"], case["order"], case["close_at"])
     return v
